@@ -18,12 +18,15 @@ RULE = ("seeded circuits of 1-2 PopulationTemplate(n) (n in 1..6, per-unit heter
         "trajectories unit by unit incl. population outputs (one column per unit in unit order), and the explicit circuit built "
         "with add_edges_from_matrix; non-trivial = n >= 2 and a non-symmetric / non-uniform W; distinct = distinct spec hash")
 DECIDING = ['derivatives_compared', 'rows_compared', 'pop_output_columns', 'matrix_connections', 'scalar_connections',
-            'coupling_connections', 'delayed_connections', 'explicit_matrix_circuits', 'nonsquare', 'dynamic_coupling_models']
+            'coupling_connections', 'delayed_connections', 'explicit_matrix_circuits', 'nonsquare', 'dynamic_coupling_models',
+            'two_equation_couplings', 'couplings_with_constant', 'scalar_weight_couplings']
 ASSUMPTIONS = ['W[i, j] couples source unit j to target unit i', 'scalar weight w means w * sum_j source_j for every target']
 CASE_TIMEOUT = 240
 FOCUS = ['dynamic_couplings_share_target', 'conn_delay', 'conn_coupling', 'conn_scalar', 'pop_n1_connected', 'conn_coupling_post_with_delay',
          'two_delayed_conns_same_source', 'coupling_src_post_same_name', 'coupling_shares_target_var',
          'matrix_delay_source_named_k']
+
+NO_POST = ('src_only', 'dynamic', 'two_eq_src')      # coupling forms without a post-synaptic input
 
 
 def plan(tier, seed):
@@ -146,7 +149,14 @@ def _gen_pop_case(rnd, want, opened, dynamic_only=False):
                 if kind == 'coupling':
                     risk.add('conn_coupling')
                     post = rnd.choice([e[1] for e in ops[top]['eqs'] if e[0] == 'de'])
-                    c['form'] = rnd.choice(['sin_diff', 'prod', 'src_only', 'dynamic', 'dynamic'])
+                    c['form'] = rnd.choice(['sin_diff', 'prod', 'src_only', 'dynamic', 'dynamic', 'two_eq', 'two_eq_src', 'const_gain'])
+                    if c['form'] == 'const_gain':
+                        c['gk'] = round(vals.new() * 3, 4)        # a constant declared by the (algebraic) edge operator
+                    if rnd.random() < 0.25:
+                        # uniform all-to-all coupling through the coupling function: scalar weight together with an edge template
+                        c['w'] = round(vals.new() * rnd.choice([1, -1, 2]), 4)
+                        c['W'] = [[c['w']] * ns for _ in range(nt)]
+                        c['w_scalar'] = True
                     if dynamic_only:
                         c['form'] = 'dynamic'
                     if c['form'] == 'dynamic':
@@ -191,13 +201,13 @@ def _gen_pop_case(rnd, want, opened, dynamic_only=False):
                 risk.add('pop_n1_connected')
             # where the delay acts (on the source before the coupling function, or on the coupled value) only matters when
             # the coupling depends on the post-synaptic variable or the delay is a (non-commuting) kernel
-            if c['kind'] == 'coupling' and c.get('delay') and (c['form'] not in ('src_only',) or c.get('spread')):
+            if c['kind'] == 'coupling' and c.get('delay') and (c['form'] not in ('src_only', 'two_eq_src') or c.get('spread')):
                 risk.add('conn_coupling_post_with_delay')
         tcount = {}
         for c in conns:
             tcount[c['target']] = tcount.get(c['target'], 0) + 1
         for c in conns:
-            if c['kind'] == 'coupling' and c['form'] not in ('src_only', 'dynamic') and c['source'][2] == c['post'] and \
+            if c['kind'] == 'coupling' and c['form'] not in NO_POST and c['source'][2] == c['post'] and \
                     (c['source'][0], c['source'][1]) != (c['target'][0], c['target'][1]):
                 risk.add('coupling_src_post_same_name')
             if c['kind'] == 'coupling' and tcount[c['target']] > 1:
@@ -228,6 +238,17 @@ def coupling_ops(c, idx):
         # an edge with its own state variable per (target, source) pair: zc' = rc*(s_pre - zc)
         return {'eqs': [['de', 'zc', E.tolist(E.mul(E.var('rc'), E.sub(E.var('s_pre'), E.var('zc'))))]],
                 'vars': {'zc': ['out', 0.0], 's_pre': ['in', 0.0], 'rc': ['const', c['rc']]}}
+    if c['form'] in ('two_eq', 'two_eq_src'):
+        # two equations in one edge operator: an intermediate algebraic variable that the output equation multiplies
+        mid = E.add(E.var('s_pre'), E.var('s_post')) if c['form'] == 'two_eq' else E.add(E.var('s_pre'), E.num(0.7))
+        out = E.mul(E.num(2.3), E.var('c_mid')) if c['form'] == 'two_eq' else E.mul(E.var('c_mid'), E.var('c_mid'))
+        vars_ = {'c_out': ['out', 0.0], 'c_mid': ['var', 0.0], 's_pre': ['in', 0.0]}
+        if c['form'] == 'two_eq':
+            vars_['s_post'] = ['in', 0.0]
+        return {'eqs': [['alg', 'c_mid', E.tolist(mid)], ['alg', 'c_out', E.tolist(out)]], 'vars': vars_}
+    if c['form'] == 'const_gain':
+        return {'eqs': [['alg', 'c_out', E.tolist(E.mul(E.var('gk'), E.call('tanh', E.sub(E.var('s_pre'), E.var('s_post')))))]],
+                'vars': {'c_out': ['out', 0.0], 's_pre': ['in', 0.0], 's_post': ['in', 0.0], 'gk': ['const', c['gk']]}}
     if c['form'] == 'sin_diff':
         ex = E.call('sin', E.sub(E.var('s_pre'), E.var('s_post')))
     elif c['form'] == 'prod':
@@ -235,7 +256,7 @@ def coupling_ops(c, idx):
     else:
         ex = E.call('tanh', E.mul(E.num(1.7), E.var('s_pre')))
     vars_ = {'c_out': ['out', 0.0], 's_pre': ['in', 0.0]}
-    if c['form'] not in ('src_only', 'dynamic'):
+    if c['form'] not in NO_POST:
         vars_['s_post'] = ['in', 0.0]
     return {'eqs': [['alg', 'c_out', E.tolist(ex)]], 'vars': vars_}
 
@@ -269,7 +290,7 @@ def explicit_spec(plan_):
                     a['spread'] = c['spread']
                 if et:
                     a[f'{et}/coup_op{ci}/s_pre'] = 'source'
-                    if c['form'] not in ('src_only', 'dynamic'):
+                    if c['form'] not in NO_POST:
                         a[f'{et}/coup_op{ci}/s_post'] = f'{tp}__{i}/{top}/{c["post"]}'
                 edges.append([f'{sp}__{j}/{sop}/{sv}', f'{tp}__{i}/{top}/{tv}', et, a])
     return {'ops': ops, 'node_types': nts, 'edge_types': ets, 'circ': {'name': 'c', 'nodes': nodes, 'subs': {}, 'edges': edges}}
@@ -281,8 +302,13 @@ def build_population_circuit(plan_):
     for pn, p in plan_['pops'].items():
         op = OperatorTemplate(**build.op_kwargs(p['op'], plan_['ops'][p['op']]))
         node = NodeTemplate(name=f'node_{pn}', operators=[op])
+        # (plan_['pre_update']: variables whose final per-unit values in p['params'] are reached through update_var on the circuit,
+        # starting from the original values recorded there - used by the population family of C07)
+        pre = {k_.split('/')[1]: u_ for k_, u_ in plan_.get('pre_update', {}).items() if k_.split('/')[0] == pn}
+        par0 = {v: (pre[v]['orig'] if v in pre else vals) for v, vals in p['params'].items()}
         pops[pn] = PopulationTemplate(name=pn, node=node, n=p['n'],
-                                      params={f"{p['op']}/{v}": np.asarray(vals, dtype=float) for v, vals in p['params'].items()})
+                                      params={f"{p['op']}/{v}": np.asarray(vals, dtype=float) for v, vals in par0.items()
+                                              if vals is not None})
     conns = []
     for ci, c in enumerate(plan_['conns']):
         sp, sop, sv = c['source']
@@ -292,15 +318,20 @@ def build_population_circuit(plan_):
             eop = OperatorTemplate(**build.op_kwargs(f'coup_op{ci}', coupling_ops(c, ci)))
             kw['edge'] = EdgeTemplate(name=f'coup{ci}', operators=[eop])
             kw['edge_var_map'] = {'s_pre': 'source'}
-            if c['form'] not in ('src_only', 'dynamic'):
+            if c['form'] not in NO_POST:
                 kw['edge_var_map']['s_post'] = f'{tp}/{top}/{c["post"]}'
         if c.get('delay'):
             kw['delays'] = c['delay']
         if c.get('spread'):
             kw['spread'] = c['spread']
-        w = c['w'] if c['kind'] == 'scalar' else np.asarray(c['W'], dtype=float)
+        w = c['w'] if c['kind'] == 'scalar' or c.get('w_scalar') else np.asarray(c['W'], dtype=float)
         conns.append(Connectivity(source=f'{sp}/{sop}/{sv}', target=f'{tp}/{top}/{tv}', weights=w, **kw))
-    return CircuitTemplate(name='popc', populations=pops, connections=conns)
+    circ = CircuitTemplate(name='popc', populations=pops, connections=conns)
+    for k_, u_ in plan_.get('pre_update', {}).items():
+        pn, v = k_.split('/')
+        final = plan_['pops'][pn]['params'][v]
+        circ.update_var(node_vars={f"{pn}/{plan_['pops'][pn]['op']}/{v}": float(final[0]) if u_['scalar'] else np.asarray(final, dtype=float)})
+    return circ
 
 
 def run_case(case, ctx):
@@ -320,6 +351,12 @@ def run_case(case, ctx):
         for c in plan_['conns']:
             mech[{'matrix': 'matrix_connections', 'scalar': 'scalar_connections', 'coupling': 'coupling_connections'}[c['kind']]] = \
                 mech.get({'matrix': 'matrix_connections', 'scalar': 'scalar_connections', 'coupling': 'coupling_connections'}[c['kind']], 0) + 1
+            if c['kind'] == 'coupling':
+                for key_, cond_ in (('two_equation_couplings', c['form'] in ('two_eq', 'two_eq_src')),
+                                    ('couplings_with_constant', c['form'] == 'const_gain'),
+                                    ('scalar_weight_couplings', bool(c.get('w_scalar')))):
+                    if cond_:
+                        mech[key_] = mech.get(key_, 0) + 1
             if c.get('delay'):
                 mech['delayed_connections'] = mech.get('delayed_connections', 0) + 1
                 if c.get('off_grid') and not c.get('spread'):
